@@ -876,14 +876,11 @@ type decoded struct {
 func oracleDecode(data []byte) decoded {
 	var f fileEntry
 	var d decoded
+	// The FILE is the entry: bytes other than white space after (or before) the JSON value make it something that is
+	// not a well-formed entry, whatever a reader that stops after the first value would make of its beginning
+	// (json.Unmarshal is strict about this; trailing white space is JSON).
 	if err := json.Unmarshal(data, &f); err != nil {
-		// a streaming reader (json.Decoder) stops after the first value: whether bytes after a complete entry
-		// make the file "not a well-formed entry" is not fixed by the statement
-		f = fileEntry{}
-		if err2 := json.NewDecoder(bytes.NewReader(data)).Decode(&f); err2 != nil {
-			return decoded{why: "not JSON of an entry: " + err.Error()}
-		}
-		d.lenient = "bytes after the first JSON value ignored"
+		return decoded{why: "not JSON of an entry: " + err.Error()}
 	}
 	if f.DeltaCRL != nil && len(f.DeltaCRL) == 0 {
 		// "deltaCRL":"" - present-but-empty or absent is the reader's choice
@@ -1114,6 +1111,15 @@ func (a *alphabet) corruptions(entry *bundleSpec) ([]corruption, error) {
 	list := a.structural(entry, file, foreign)
 	for n := 0; n < len(file); n++ {
 		list = append(list, corruption{Kind: "trunc", Label: fmt.Sprintf("trunc:%d", n), Data: file[:n]})
+	}
+	// bytes before / after a complete entry: every single byte value, and every prefix of the entry glued on again
+	// (a second, possibly torn, write appended instead of replacing)
+	for b := 0; b < 256; b++ {
+		list = append(list, corruption{Kind: "append", Label: fmt.Sprintf("append:%d", b), Data: append(append([]byte(nil), file...), byte(b))})
+		list = append(list, corruption{Kind: "prepend", Label: fmt.Sprintf("prepend:%d", b), Data: append([]byte{byte(b)}, file...)})
+	}
+	for n := 1; n <= len(file); n++ {
+		list = append(list, corruption{Kind: "glued-prefix", Label: fmt.Sprintf("glued-prefix:%d", n), Data: append(append([]byte(nil), file...), file[:n]...)})
 	}
 	for _, m := range []struct {
 		name string
@@ -1414,6 +1420,7 @@ func main() {
 	if a == nil {
 		r.Finish()
 	}
+	hostileFamily(r, a)  // hostile.go: path-special values in every component of the URL (replays its own cases)
 	instanceFamily(r, a) // instances.go: two-instance / external-change histories (replays its own cases)
 	if r.Replay != "" {
 		replay(r, a)
